@@ -56,7 +56,7 @@ def gen_case(rng, tier):
         keycols = [[col[i] for i in order] for col in keycols]
     ncols = rng.choice([1, 1, 2, 3])
     vals = [[rng.choice(VALS) for _ in range(n)] for _ in range(ncols)]
-    shape = rng.choice(["series", "array", "list", "dict", "frame", "array2d", "plframe"]) if ncols > 1 else rng.choice(["series", "series_unnamed", "array", "plseries"])
+    shape = rng.choice(["series", "array", "list", "dict", "frame", "array2d", "plframe", "list_same_names", "list_default_name_taken"]) if ncols > 1 else rng.choice(["series", "series_unnamed", "array", "plseries"])
     if ncols > 1 and shape in ("series", "array"):
         shape = "list"
     op = rng.choice(OPS)
@@ -115,6 +115,12 @@ def make_values(c):
         return pl.Series("v0", cols[0].to_numpy()), ["v0"], "v0"
     if sh == "list":
         return [x for x in cols], [f"v{j}" for j in range(len(cols))], None
+    if sh == "list_same_names":
+        # several inputs that carry the same name (columns taken from different frames): still one column per input
+        return [x.rename("dup") for x in cols], ["dup"] * len(cols), None
+    if sh == "list_default_name_taken":
+        # an unnamed input next to one that is called like the default name of an unnamed input
+        return [cols[0].to_numpy()] + [x.rename("_arr_0") for x in cols[1:]], None, None
     if sh == "dict":
         return {f"d{j}": x.to_numpy() for j, x in enumerate(cols)}, [f"d{j}" for j in range(len(cols))], None
     if sh == "frame":
@@ -159,6 +165,11 @@ def run_case(GroupBy, c):
     want_frame = op != "size" and ncols > 1 or (op != "size" and c["shape"] in ("list", "dict", "frame", "plframe", "array2d"))
     if want_frame != isinstance(out, pd.DataFrame):
         viol.append(dict(sig={**sig, "what": "container"}, what=f"{'frame' if want_frame else 'series'} expected, got {type(out).__name__}", observed=type(out).__name__, expected="DataFrame" if want_frame else "Series"))
+        return viol
+    if isinstance(out, pd.DataFrame) and c["shape"] in ("list_same_names", "list_default_name_taken") and out.shape[1] != len(c["vals"]):
+        # (known finding K4: the columns are assembled in a dict keyed by name)
+        viol.append(dict(sig={**sig, "what": "column-dropped", "duplicate_names": True}, what="inputs that share a name: the result has fewer columns than inputs", observed=str(list(out.columns)),
+                         expected=f"{len(c['vals'])} columns"))
         return viol
     if isinstance(out, pd.DataFrame) and col_names is not None and list(out.columns) != col_names:
         viol.append(dict(sig={**sig, "what": "columns"}, what="columns are not one per input in input order", observed=str(list(out.columns)), expected=str(col_names)))
